@@ -1,7 +1,7 @@
 """C01: query results equal the documented YAML Path segment semantics.
 
-Case = (document text, [paths]); per path three observations (required query,
-optional query, exists()).  The judge evaluates an independent reference of the
+Case = (document text, [paths]); per path four observations (required query,
+optional query, exists(), optional query with a default_value).  The judge evaluates an independent reference of the
 documented semantics (README "Supported YAML Path Segments"; DESIGN Appendix C;
 coq/Spec/SpecC01.v is the same definition in Gallina) on the loaded document
 and compares node identities, order and multiplicity with what the real
@@ -23,7 +23,9 @@ CONFIG = {
     "rule": ("documents and paths of the C15 stream restricted to the C01 fragment (key, index, slice, anchor, "
              "search with all nine operators / inversion / attribute '.', named, descendant, wildcard, deep "
              "traversal; no collectors, no keyword searches); every path is evaluated in dot notation and, when it "
-             "can be transcribed, in forward-slash notation (paired in one case); required, optional and exists().  "
+             "can be transcribed, in forward-slash notation (paired in one case); required, optional (without and "
+             "with a default_value) and exists(); plus single-path cases: numbers equal to the term under every "
+             "ordering operator, existing paths ending at / passing through null values.  "
              "non-trivial = the required query returned nodes; distinct = distinct (document, path list)."),
     "trusted_base": [
         "modelled, not verified: yamlpath/processor.py 59-167, 811-2627; common/searches.py; Nodes.typed_value",
